@@ -10,8 +10,10 @@ def olen(rng, chord=False, allow_none=True):
         return "-"
     def atom(head):
         step = 1 if (rng.random() < 0.12 and not chord) else 0
-        ds = rng.choice(["1", "2", "4", "4", "8", "8", "16", "3", "6", "12", "32", "24"]) if not step else str(rng.choice([1, 10, 24, 48, 96, 100]))
-        dots = rng.choice([0, 0, 0, 1, 1, 2])
+        # (small and odd tick counts with several dots: the dotted value is ONE truncation of x * (2 - 1/2^k), not a sum of truncated halves)
+        ds = (rng.choice(["1", "2", "4", "4", "8", "8", "16", "3", "6", "12", "32", "24", "64", "128", "48", "5", "7"]) if not step
+              else str(rng.choice([1, 10, 24, 48, 96, 100, 3, 7, 15, 5])))
+        dots = rng.choice([0, 0, 0, 1, 1, 2, 2, 3])
         return "%d:0:%s:%d" % (step, ds, dots)
     head = atom(True)
     n = rng.choice([0, 0, 0, 1, 1, 2])
